@@ -36,6 +36,12 @@ def run(run):
         spawn_keeps_nothing(run, f, lc)
         weak_is_weak(run, f)
         loop_exits(run, lc)
+        from rules import sendrules
+        import sendpaths
+        sendrules.stop_marker_ends_loop(run, lc, rule="O7.3")
+        # "after stop() is accepted ... the actor finishes": stop() must really enqueue its marker
+        # (waiting send on self.sender), otherwise an accepted stop can be lost
+        sendrules.stop_marker(run, f, sendpaths.get(f), rule="O7.3")
         upgrade_table(run, f)
         # O7.3: closed channel / stop marker => on_stop(false), Completed{killed:false}
         c04.check_lifecycle(run, lc)
